@@ -19,6 +19,7 @@ PROP = {  # substring of the commit subject -> property whose check must catch t
  "global+sticky match/replace on the fast path": "C20",
  "split with a RegExp emitted an extra": "C20",
  "String objects ignored own properties": "C04", "character index of a String object": "C04", "getOwnPropertyDescriptor trap returning an accessor": "C11",
+ "set with an empty typed-array source": "C17", "new DataView(buffer, offset, length)": "C17", "ArrayBuffer.prototype.slice did not throw": "C17",
  "copyWithin did not clamp": "C17", "set(arrayLike)": "C17", "ignored the match limit": "C20", "carried into the sign": "C12",
 }
 log = subprocess.run("git -C /repo log --format='%h %s' --grep='^fix:'", shell=True, capture_output=True, text=True).stdout.splitlines()
